@@ -159,8 +159,14 @@ class Enc:
             return "(%s %s)" % (self.uf("g_" + base, 1), a)
         if self.fp and base in CHOICE_BASE:
             return "(k_%s %s %s)" % (CHOICE_BASE[base], a, b)
-        if base in COMMUTATIVE_UF and b < a:
-            a, b = b, a
+        if base in COMMUTATIVE_UF:
+            # commutative uninterpreted function: applied to the operands in
+            # canonical (unsigned) order, so f(a,b) = f(b,a) holds in every model
+            if a == b:
+                return "(%s %s %s)" % (self.uf("g_" + base, 2), a, b)
+            lo = "(ite (bvule %s %s) %s %s)" % (a, b, a, b)
+            hi = "(ite (bvule %s %s) %s %s)" % (a, b, b, a)
+            return "(%s %s %s)" % (self.uf("g_" + base, 2), lo, hi)
         return "(%s %s %s)" % (self.uf("g_" + base, 2), a, b)
 
     def sem(self, name, a, b=None):
